@@ -1,6 +1,6 @@
 CONSTANTS
-  G = 5
-  Ws = {2, 3, 4, 5}
+  G = 4
+  Ws = {2, 3, 4}
   PreD19 = FALSE
   D <- DQuick
   NV = 3
